@@ -31,7 +31,8 @@ template class Interval<float, 3>;
   template CartesianCoordinates3<S> toCartesian<S>(const SphericalCoordinates<S> &); \
   template HomogeneousCoordinates3<S> toHomogeneous<S>(const SphericalCoordinates<S> &); \
   template S romea_verif_scalar_api<S>(S, S, S); \
-  template S romea_verif_value_classes<S>(S, S, S);
+  template S romea_verif_value_classes<S>(S, S, S); \
+  template S romea_verif_point_api<S>(S, S, S);
 // the scalar overloads of the coordinate transforms are instantiated through calls (overload resolution), not through explicit instantiations, so that a change of a parameter's
 // order or constness still yields a unit the front end accepts
 template<typename S> S romea_verif_scalar_api(S a, S b, S c)
@@ -39,6 +40,17 @@ template<typename S> S romea_verif_scalar_api(S a, S b, S c)
   return SphericalTransform::range(a, b, c) + SphericalTransform::azimut(a, b) + SphericalTransform::elevation(a, b) + SphericalTransform::elevation(a, b, c) +
          SphericalTransform::x(a, b, c) + SphericalTransform::y(a, b, c) + SphericalTransform::z(a, b) + PolarTransform::azimut(a, b) + PolarTransform::range(a, b) +
          PolarTransform::x(a, b) + PolarTransform::y(a, b);
+}
+// the POINT overloads for the homogeneous and cartesian point types (public entry points that no translation unit of the library instantiates)
+template<typename S> S romea_verif_point_api(S a, S b, S c)
+{
+  HomogeneousCoordinates2<S> h2(a, b);
+  HomogeneousCoordinates3<S> h3(a, b, c);
+  CartesianCoordinates2<S> c2(a, b);
+  CartesianCoordinates3<S> c3(a, b, c);
+  return PolarTransform::azimut(h2) + PolarTransform::range(h2) + PolarTransform::azimut(c2) + PolarTransform::range(c2) +
+         SphericalTransform::azimut(h3) + SphericalTransform::range(h3) + SphericalTransform::elevation(h3) +
+         SphericalTransform::azimut(c3) + SphericalTransform::range(c3) + SphericalTransform::elevation(c3);
 }
 // copy construction and copy assignment of the coordinate value classes (instantiated through use, whatever their declaration looks like)
 template<typename S> S romea_verif_value_classes(S a, S b, S c)
